@@ -934,7 +934,7 @@ class SegmentWriter(IndexWriter):
         self._check_state()
         # Merge old segments if necessary
         finalsegments = self._merge_segments(mergetype, optimize, merge)
-        if self._added:
+        if self._added and self.docnum > self.docbase:
             # Flush the current segment being written and add it to the
             # list of remaining segments returned by the merge policy
             # function
